@@ -93,7 +93,7 @@ def run(prop, tier, seed, replay=None):
             rep.extra['nonvacuity'] = {'truncated_group_silent': 'InvDecl violated as required'}
             # (b) corpora
             kq = [kind('w', sfx=True), kind('(', tag='$('), kind('-LRB-', tag='$[')]
-            kt = kq + [kind(')'), kind(u'Üb"', sfx=True), kind('x' * 8)]
+            kt = kq + [kind(')'), kind(u'Üb"', sfx=True), kind('x' * 8), kind(u'1\u00a00')]
             m = dict(N=3, MaxCons=2, MaxChain=1) if tier == 'quick' else dict(N=4, MaxCons=2, MaxChain=1)
             jb = jobs(tier)
             core.gen_module(w, 'MCR', ['MC_Readers'], {
@@ -124,7 +124,9 @@ def run(prop, tier, seed, replay=None):
             # seeded random corpora with the alphabets the quantifier names (look-alikes of node references,
             # XML-special, non-ASCII, tab-stop lengths), all formats and option subsets
             pool = ['w', 'w', 'a&b', '<t>', '"q"', "it's", u'Übermaß', u'日本', 'x' * 7, 'y' * 8, 'z' * 15, 'v' * 16,
-                    '#1', '#42', '#4711', '#50', '--', '%s', '-LRB-', '[', 'NP', '500']
+                    '#1', '#42', '#4711', '#50', '--', '%s', '-LRB-', '[', 'NP', '500',
+                    # non-ASCII space characters are characters of a word, not separators
+                    u'10\u00a0000', u'z.\u202fB.', u'a\u3000b', u'\u00a0x', u'p\u2028q']
             for k in range(250 if tier == 'quick' else 4000):
                 fmt = rnd.choice(list(ROPTS))
                 o = [x for x in ROPTS[fmt] if rnd.random() < 0.3]
